@@ -56,6 +56,18 @@ CLAIMED = {
              "forward) or be refused exactly when it cannot be formed; model(distribution) must only rename the input on a copy.",
         note="Trusted: numpy; central differences with step 1e-6 (tolerance 2e-5). PDE-based models are covered under C18.",
         design="3/C12"),
+    "C17": dict(
+        technique="Hypothesis property tests over constructor options: differential against independent reference operators, scripted noise stream for the exact noise law, object-identity/consistency checks",
+        text="For generated option combinations of every shipped test problem the forward model is compared with an independently "
+             "written reference operator (scipy convolve1d with the stated PSF/mode; direct 2-D convolution sums of the boundary-"
+             "extended image; own explicit Euler loop; own assembly of D^T diag(kappa) D u = f; own Abel quadrature; the documented "
+             "cubic and its Jacobian); exactData must be the reference applied to exactSolution; with the normal draws scripted, "
+             "data - exactData must equal the stated noise exactly (sigma*e, |y|*sigma*e, ||y||/SNR*e); model/data/likelihood/prior/"
+             "posterior/get_components() must be the same objects with consistent geometries; posterior.logd must equal the Gaussian "
+             "log-likelihood of the stated noise plus prior.logd.",
+        note="Trusted: scipy.ndimage.convolve1d as the documented definition of Deconvolution1D; PDE discretisation constants mirror the "
+             "problem description; the legacy circulant form is accepted as convolution or correlation with the given kernel.",
+        design="3/C17"),
     "C18": dict(
         technique="Hypothesis property tests: residuals of the discrete equations recomputed independently, reference restriction/interpolation, by-hand assemble-solve-observe pipeline, analytic + finite-difference Jacobian",
         text="Generated affine-in-parameter steady and time-dependent linear PDE forms (time-dependent operator and source, non-uniform "
